@@ -18,6 +18,8 @@ WITNESSES = {
     "upus-recomputed": lambda: dict(SC.fixtures())["test/resources/demon_lore_yatapi_test.chk"],
     "orphan-weapons-zeroed": lambda: SC.MapGen(random.Random(11), "editor", nloc=255, all_sections=True,
                                                orphan_weapons=True).build(),
+    "swnm-empty-name-zeroed": lambda: SC.MapGen(random.Random(12), "editor", nloc=255, all_sections=True, near_texts=False,
+                                                swnm_density=0.0, swnm_empty_ref=True).build(),
 }
 
 
